@@ -95,6 +95,10 @@ func verifCanary(label string, cond bool) {}
 //@           off(result) == off(b.buf) + old(b.pos) + 4 && b.pos == old(b.pos) + 4 + len(result)
 //@   ensures [C02:error-nothing] b.err != nil ==> len(result) == 0
 //@   ensures [C01:advance] b.err == nil ==> b.pos == old(b.pos) + 4 + len(result)
+//@   ensures [C01:null-or-empty] old(b.err) == nil && len(b.buf) - old(b.pos) >= 4 && (le32(b.buf, old(b.pos)) == 0 || le32(b.buf, old(b.pos)) == 4294967295) ==>
+//@           b.err == nil && len(result) == 0 && arr(result) == 0
+//@   ensures [C01:ok] old(b.err) == nil && len(b.buf) - old(b.pos) >= 4 && le32(b.buf, old(b.pos)) != 0 && le32(b.buf, old(b.pos)) != 4294967295 &&
+//@           int(le32(b.buf, old(b.pos))) <= len(b.buf) - old(b.pos) - 4 ==> b.err == nil && len(result) == int(le32(b.buf, old(b.pos)))
 
 // The remaining scalar readers: same shape, stated once each (width k).
 //@ func (*Buffer).ReadBool
@@ -124,6 +128,7 @@ func verifCanary(label string, cond bool) {}
 //@   assigns b.pos, b.err
 //@   ensures [C02:inv] bufInv(b) && sameslice(b.buf, old(b.buf)) && b.pos >= old(b.pos) && b.pos - old(b.pos) <= 8
 //@   ensures [C02:sticky] old(b.err) != nil ==> b.pos == old(b.pos) && b.err == old(b.err)
+//@   ensures [C01:ok] old(b.err) == nil && len(b.buf) - old(b.pos) >= 8 ==> b.err == nil && b.pos == old(b.pos) + 8 && result == int64(le64(b.buf, old(b.pos)))
 
 //@ func (*Buffer).ReadFloat32
 //@   props C02
@@ -451,3 +456,165 @@ func verifCanary(label string, cond bool) {}
 //@   ensures [C24:short] policy != "" && !in(policy, SecurityPolicyURIs) && !strings.HasPrefix(policy, SecurityPolicyURIPrefix) ==>
 //@           result == SecurityPolicyURIPrefix + policy
 //@   canary ensures [C24:canary-always-prefix] policy != "" ==> result == SecurityPolicyURIPrefix + policy
+
+// ---------------------------------------------------------------------------
+// C01 (and the size arithmetic of C07): the Buffer writers. A write appends exactly the encoding of its
+// argument: the buffer grows by the width, everything written before is unchanged, and the new bytes are
+// the little-endian image of the value (the same le16/le32/le64 the readers are specified with). After
+// an error the checked writers change nothing.
+// ---------------------------------------------------------------------------
+
+// unchanged prefix: the first n bytes of buf are what they were in the old buffer
+//@ pred prefixKept(now []byte, was []byte) := len(now) >= len(was) && off(now) == off(was) &&
+//@     (forall i int :: { at(now, i) } off(now) <= i && i < off(now) + len(was) ==> at(now, i) == old(at(was, i)))
+
+//@ func NewBuffer
+//@   props C01
+//@   assigns nothing
+//@   ensures result != nil && fresh(result) && sameslice(result.buf, b) && result.pos == 0 && result.err == nil
+
+//@ func (*Buffer).Write
+//@   props C01 C07
+//@   bytes
+//@   requires b != nil
+//@   assigns b.buf, elems(b.buf)
+//@   ensures [C01:sticky] old(b.err) != nil ==> sameslice(b.buf, old(b.buf))
+//@   ensures [C01:grows] old(b.err) == nil ==> len(b.buf) == len(old(b.buf)) + len(d) && prefixKept(b.buf, old(b.buf)) && (arr(b.buf) == arr(old(b.buf)) || fresh(b.buf))
+//@   ensures [C01:data] old(b.err) == nil ==> forall i int :: { at(b.buf, i) } off(b.buf) + len(old(b.buf)) <= i && i < off(b.buf) + len(b.buf) ==>
+//@           at(b.buf, i) == old(at(d, off(d) + (i - (off(b.buf) + len(old(b.buf))))))
+//@   ensures b.err == old(b.err) && b.pos == old(b.pos)
+
+//@ func (*Buffer).WriteUint8
+//@   props C01
+//@   requires b != nil
+//@   assigns b.buf, elems(b.buf)
+//@   ensures [C01:grows] len(b.buf) == len(old(b.buf)) + 1 && prefixKept(b.buf, old(b.buf)) && (arr(b.buf) == arr(old(b.buf)) || fresh(b.buf))
+//@   ensures [C01:value] at(b.buf, off(b.buf) + len(old(b.buf))) == n
+
+//@ func (*Buffer).WriteUint16
+//@   props C01
+//@   bytes
+//@   requires b != nil
+//@   assigns b.buf, elems(b.buf)
+//@   ensures [C01:sticky] old(b.err) != nil ==> sameslice(b.buf, old(b.buf))
+//@   ensures [C01:grows] old(b.err) == nil ==> len(b.buf) == len(old(b.buf)) + 2 && prefixKept(b.buf, old(b.buf)) && (arr(b.buf) == arr(old(b.buf)) || fresh(b.buf))
+//@   ensures [C01:value] old(b.err) == nil ==> le16(b.buf, len(old(b.buf))) == n
+//@   ensures b.err == old(b.err) && b.pos == old(b.pos)
+
+//@ func (*Buffer).WriteUint32
+//@   props C01 C07
+//@   bytes
+//@   requires b != nil
+//@   assigns b.buf, elems(b.buf)
+//@   ensures [C01:sticky] old(b.err) != nil ==> sameslice(b.buf, old(b.buf))
+//@   ensures [C01:grows] old(b.err) == nil ==> len(b.buf) == len(old(b.buf)) + 4 && prefixKept(b.buf, old(b.buf)) && (arr(b.buf) == arr(old(b.buf)) || fresh(b.buf))
+//@   ensures [C01:value] old(b.err) == nil ==> le32(b.buf, len(old(b.buf))) == n
+//@   ensures b.err == old(b.err) && b.pos == old(b.pos)
+
+//@ func (*Buffer).WriteUint64
+//@   props C01
+//@   bytes
+//@   requires b != nil
+//@   assigns b.buf, elems(b.buf)
+//@   ensures [C01:sticky] old(b.err) != nil ==> sameslice(b.buf, old(b.buf))
+//@   ensures [C01:grows] old(b.err) == nil ==> len(b.buf) == len(old(b.buf)) + 8 && prefixKept(b.buf, old(b.buf)) && (arr(b.buf) == arr(old(b.buf)) || fresh(b.buf))
+//@   ensures [C01:value] old(b.err) == nil ==> le64(b.buf, len(old(b.buf))) == n
+//@   ensures b.err == old(b.err) && b.pos == old(b.pos)
+
+// Round-trip lemmas for the scalar primitives (C01): what a writer appends, the matching reader reads
+// back as the same value, consuming exactly those bytes and setting no error. All values, no bound.
+//@ func verifRoundTripUint8
+//@   props C01
+func verifRoundTripUint8(v uint8) {
+	w := NewBuffer(nil)
+	w.WriteUint8(v)
+	r := NewBuffer(w.Bytes())
+	got := r.ReadByte()
+	verifAssert("C01:uint8", r.Error() == nil && got == v && r.Pos() == 1 && r.Len() == 0)
+}
+
+//@ func verifRoundTripUint16
+//@   props C01
+func verifRoundTripUint16(v uint16) {
+	w := NewBuffer(nil)
+	w.WriteUint16(v)
+	r := NewBuffer(w.Bytes())
+	got := r.ReadUint16()
+	verifAssert("C01:uint16", r.Error() == nil && got == v && r.Pos() == 2 && r.Len() == 0)
+	verifCanary("C01:canary-uint16-swapped", got == v<<8|v>>8)
+}
+
+//@ func verifRoundTripUint32
+//@   props C01
+func verifRoundTripUint32(v uint32) {
+	w := NewBuffer(nil)
+	w.WriteUint32(v)
+	r := NewBuffer(w.Bytes())
+	got := r.ReadUint32()
+	verifAssert("C01:uint32", r.Error() == nil && got == v && r.Pos() == 4 && r.Len() == 0)
+}
+
+//@ func verifRoundTripUint64
+//@   props C01
+func verifRoundTripUint64(v uint64) {
+	w := NewBuffer(nil)
+	w.WriteUint64(v)
+	r := NewBuffer(w.Bytes())
+	got := r.ReadUint64()
+	verifAssert("C01:uint64", r.Error() == nil && got == v && r.Pos() == 8 && r.Len() == 0)
+}
+
+// two values in sequence: the second write leaves the first intact, the reads come back in order
+//@ func verifRoundTripPair
+//@   props C01
+func verifRoundTripPair(a uint32, b uint16) {
+	w := NewBuffer(nil)
+	w.WriteUint32(a)
+	w.WriteUint16(b)
+	r := NewBuffer(w.Bytes())
+	ga := r.ReadUint32()
+	gb := r.ReadUint16()
+	verifAssert("C01:pair", r.Error() == nil && ga == a && gb == b && r.Pos() == 6 && r.Len() == 0)
+}
+
+//@ func verifRoundTripInt32
+//@   props C01
+func verifRoundTripInt32(v int32) {
+	w := NewBuffer(nil)
+	w.WriteInt32(v)
+	r := NewBuffer(w.Bytes())
+	got := r.ReadInt32()
+	verifAssert("C01:int32", r.Error() == nil && got == v && r.Pos() == 4 && r.Len() == 0)
+}
+
+//@ func verifRoundTripInt64
+//@   props C01
+func verifRoundTripInt64(v int64) {
+	w := NewBuffer(nil)
+	w.WriteInt64(v)
+	r := NewBuffer(w.Bytes())
+	got := r.ReadInt64()
+	verifAssert("C01:int64", r.Error() == nil && got == v && r.Pos() == 8 && r.Len() == 0)
+}
+
+// A byte string of any length (content compared at an arbitrary index k, i.e. at every index): the
+// length prefix and the bytes come back; a nil byte string comes back as nil (null, not empty).
+//@ func verifRoundTripByteString
+//@   props C01
+//@   bytes
+func verifRoundTripByteString(d []byte, k int) {
+	w := NewBuffer(nil)
+	w.WriteByteString(d)
+	if w.Error() != nil {
+		return // longer than MaxInt32: refused by the writer
+	}
+	r := NewBuffer(w.Bytes())
+	got := r.ReadBytes()
+	verifAssert("C01:bytestring-length", r.Error() == nil && len(got) == len(d) && r.Len() == 0)
+	if 0 <= k && k < len(d) {
+		verifAssert("C01:bytestring-content", got[k] == d[k])
+	}
+	if d == nil {
+		verifAssert("C01:bytestring-null", got == nil)
+	}
+}
